@@ -4,7 +4,7 @@
        then per state:  N <ntrans> trans...  |  C <nbrs> (<tid|-1> trans)...  |  F
      trans := <on hex> <tgt|-1> <fall> <err> <early> <atree>
      atree := E | P <pid> atree | T <tid> atree atree | R (D | O | X | F <n> | Y <n>) | G <q> | B <q>
-   Tasks:  nospin <dfa>   |   wf <dfa>   |   bisim <dfa> <dfa>                                                   *)
+   Tasks:  nospin <dfa>   |   wf <dfa>   |   failpos <dfa>   |   bisim <dfa> <dfa>                                                   *)
 open Machine
 
 let rec nat_of_int i = if i <= 0 then O else S (nat_of_int (i - 1))
@@ -92,6 +92,12 @@ let () =
         else (match stuck_witness d with
               | Some (q, b) -> Printf.printf "stuck %d %d\n" (int_of_nat q) (int_of_n b)
               | None -> print_endline "stuck ? ?")
+    | "failpos" ->
+        let d = parse_dfa () in
+        if fail_entry_ok d then print_endline "ok"
+        else (match fail_entry_witness d with
+              | Some (q, b) -> Printf.printf "failentry %d %d\n" (int_of_nat q) (int_of_n b)
+              | None -> print_endline "failentry ? ?")
     | "endsafe" ->
         let d = parse_dfa () in
         if end_safe d then print_endline "ok"
